@@ -185,9 +185,29 @@ def ns_items(e) -> list[list[str]]:
     return [["" if p is None else p, u] for p, u in e.nsmap.items()]
 
 
-def export_elem(e, flags: set) -> list:
-    """[tag, own nsdecls, attrs, text, tail, kids]; flags collect what the format cannot carry."""
+def no_child_decls(root) -> bool:
+    """True when certainly no element below a parentless root declares a namespace: libxml2 writes every declaration
+    as ` xmlns:p="..."` / ` xmlns="..."`, so if the serialised tree has exactly as many of those as the root declares,
+    there is none further down (text that merely looks like a declaration makes this False: the slow path decides).
+    `element.nsmap` walks the ancestor chain; asking every element twice dominated the run time of large models."""
+    if root.getparent() is not None:
+        return False
+    blob = impl()[0].tostring(root, with_tail=False)
+    return blob.count(b" xmlns:") + blob.count(b" xmlns=") == len(root.nsmap)
+
+
+def export_elem(e, flags: set, nodecl: bool = False) -> list:
+    """[tag, own nsdecls, attrs, text, tail, kids]; flags collect what the format cannot carry. `nodecl`: the caller
+    knows (no_child_decls) that nothing below the root declares a namespace."""
     parent = e.getparent()
+    if nodecl and parent is not None:
+        kids = []
+        for c in e:
+            if not isinstance(c.tag, str):
+                flags.add("non-element-child")
+                continue
+            kids.append(export_elem(c, flags, True))
+        return [e.tag, [], [[k, v] for k, v in e.items()], e.text, e.tail, kids]
     pitems = ns_items(parent) if parent is not None else []
     pm = {p: u for p, u in pitems}
     items = ns_items(e)
@@ -200,7 +220,7 @@ def export_elem(e, flags: set) -> list:
         if not isinstance(c.tag, str):
             flags.add("non-element-child")
             continue
-        kids.append(export_elem(c, flags))
+        kids.append(export_elem(c, flags, nodecl))
     return [e.tag, own, [[k, v] for k, v in e.items()], e.text, e.tail, kids]
 
 
@@ -215,7 +235,7 @@ def export_doc(root, flags: set, siblings: bool = True) -> dict:
             if c.tag is not impl()[0].Comment:
                 flags.add("non-comment-sibling")
             post.append([c.text or "", c.tail])
-    return {"pre": pre, "root": export_elem(root, flags), "post": post}
+    return {"pre": pre, "root": export_elem(root, flags, no_child_decls(root)), "post": post}
 
 
 def build_elem(etree, j, parent=None):
